@@ -432,6 +432,11 @@ def model_check(chk, tier, own):
         cfgs.append("MC_CCubeAlg.cfg")
         if own == "C02":
             cfgs.append("MC_CCubeAlg_wide.cfg")
+    if own == "C03":
+        res = core.run_tlc("MC_XCubeAlg.tla", "MC_XCubeAlg.cfg", timeout=600)
+        chk.add_tlc("L1 MC_XCubeAlg (flat coordinate through the mintype cast = row-major index)", res)
+        if res.rc != 0:
+            chk.violation("L1:XCubeAlg:" + ",".join(res.violated), res.out[-2000:], {"leg": "L1", "cfg": "MC_XCubeAlg.cfg"})
     for cfg in cfgs:
         res = core.run_tlc("CCubeAlg.tla", cfg, timeout=3000)
         chk.add_tlc("L1 %s (CCubeAlg = brute force for every common)" % cfg, res)
